@@ -65,8 +65,10 @@ func rulesC19(c *Ctx) {
 	c.c19NoStaleCounter()
 	R.Rule("R5", "outputs are derived from the stored counter of the keyset they are derived on: the counter handed to the derivation was read for the same keyset id", 4)
 	c.c19CounterKeysetAgreement()
+	R.Rule("R7", "a counter value read for deriving outputs is not made stale before those outputs are submitted: no call that itself derives outputs and advances a counter lies between the read and the submission", 3)
 	R.Rule("R6", "the wallet lock is not dropped between reading a keyset counter and advancing it", 3)
 	c.c19LockSpan()
+	c.c19NoNestedUseBetweenReadAndSubmit()
 
 	// the swap request helper is consistent: outputs derived on the keyset it records
 	if f := c.fn("R1", fnCreateSwap); f != nil {
@@ -803,6 +805,92 @@ func (c *Ctx) c19CounterKeysetAgreement() {
 // second operation read the same counter and submit the same outputs.) Functions that do not lock at all -
 // the lock is their caller's - satisfy the rule trivially; that some exported operations never lock is not
 // judged here.
+// c19NoNestedUseBetweenReadAndSubmit: R7.
+func (c *Ctx) c19NoNestedUseBetweenReadAndSubmit() {
+	R := c.R
+	// functions that (transitively, through static calls inside the wallet package) advance a counter
+	adv := map[*ssa.Function]bool{}
+	for changed := true; changed; {
+		changed = false
+		for _, f := range c.P.Funcs {
+			top := EnclosingTop(f)
+			if top.Pkg == nil || c.P.Rel(top.Pkg.Pkg.Path()) != "wallet" || adv[top] {
+				continue
+			}
+			for _, ci := range Calls(f) {
+				if c.isIncr(c.P.Describe(ci)) || adv[ci.Common().StaticCallee()] {
+					adv[top] = true
+					changed = true
+					break
+				}
+			}
+		}
+	}
+	n := 0
+	for _, f := range c.P.Funcs {
+		if f.Pkg == nil || c.P.Rel(f.Pkg.Pkg.Path()) != "wallet" || f.Parent() != nil {
+			continue
+		}
+		if c.P.IsNewFunc(f) && len(c.callersOf(f)) > 0 {
+			continue
+		}
+		var reads, submits, advancing []ssa.CallInstruction
+		for _, g := range c.OpFuncs(f) {
+			if g.Parent() != nil {
+				continue
+			}
+			for _, ci0 := range Calls(g) {
+				d := c.P.Describe(ci0)
+				ci, _ := c.siteIn(f, ci0).(ssa.CallInstruction)
+				if ci == nil {
+					continue
+				}
+				switch {
+				case d.Name == "wallet.(*Wallet).counterForKeyset" || (d.Iface != nil && d.Iface.Name() == "GetKeysetCounter"):
+					reads = append(reads, ci)
+				case c.isSubmit(d):
+					submits = append(submits, ci)
+				default:
+					if callee := ci0.Common().StaticCallee(); callee != nil && adv[callee] && !c.P.IsNewFunc(callee) {
+						advancing = append(advancing, ci)
+					}
+				}
+			}
+		}
+		if len(reads) == 0 || len(submits) == 0 {
+			continue
+		}
+		n++
+		o := c.P.OriginsOf(f)
+		ok, why := true, ""
+		for _, rd := range reads {
+			for _, k := range advancing {
+				if k == rd {
+					continue
+				}
+				r1, _ := o.ReachAvoiding(rd, k, NewCut())
+				if !r1 {
+					continue
+				}
+				for _, s := range submits {
+					if s == k {
+						continue
+					}
+					if r2, _ := o.ReachAvoiding(k, s, NewCut()); r2 {
+						ok = false
+						why = "the counter read at " + c.P.InstrPos(rd) + " is followed by " + c.P.Describe(k).Name + " at " + c.P.InstrPos(k) + " (which derives outputs and advances a counter itself) before the submission at " + c.P.InstrPos(s)
+					}
+				}
+			}
+		}
+		R.Check("R7", c.P.FuncKey(f), "no counter-advancing call between counter read and submission", c.P.Pos(f.Pos()), ok,
+			"between reading the counter that outputs are derived from and submitting those outputs, nothing else derives outputs from (and advances) a keyset counter", why)
+	}
+	if n == 0 {
+		R.Unresolved("R7", "wallet functions that read a counter and submit outputs", "none found")
+	}
+}
+
 func (c *Ctx) c19LockSpan() {
 	R := c.R
 	n := 0
